@@ -9,7 +9,7 @@ WT="$(mktemp -d /var/tmp/seedwt-XXXXXX)"
 OUT="$(mktemp -d /var/tmp/seedout-XXXXXX)"
 rmdir "$WT"
 git -C /repo worktree add -q "$WT" HEAD || exit 2
-if ! git -C "$WT" apply "$PATCH"; then echo "PATCH DOES NOT APPLY: $PATCH"; git -C /repo worktree remove --force "$WT"; exit 2; fi
+if ! { git -C "$WT" apply --3way "$PATCH" && git -C "$WT" reset -q; }; then echo "PATCH DOES NOT APPLY: $PATCH"; git -C /repo worktree remove --force "$WT"; exit 2; fi
 for C in "$@"; do
   VERIF_REPO="$WT" VERIF_EVIDENCE_DIR="$OUT/evidence" VERIF_REPLAY_DIR="$OUT/replay" VERIF_TIER="${SEED_TIER:-quick}" timeout "${SEED_TIMEOUT:-900}" "$HERE/run" "$C" --tier "${SEED_TIER:-quick}" > "$OUT/$C.log" 2>&1
   rc=$?
